@@ -65,16 +65,18 @@ def lastOrDefaultO {α} (dflt : Option α) : Op α α where
       | some v => emit s [.next v, .completed]
       | none => emit s []                  -- unreachable: seen ∨ has_default
 
-/-! ### `_firstordefault.py: first_or_default_async_(has_default, default_value)` -/
+/-! ### `_firstordefault.py: first_or_default_async_(has_default, default_value)` — state `done` (as repaired by ace7822:
+the match is recorded before it is emitted; afterwards every notification of the source is ignored) -/
 def firstOrDefaultO {α} (dflt : Option α) : Op α α where
-  σ := Unit
-  init := ()
-  onNext s x := emit s [.next x, .completed]
-  onError s e := emit s [.error e]
-  onCompleted s :=
-    match dflt with
-    | none => emit s [.error errNoElements]
-    | some d => emit s [.next d, .completed]
+  σ := Bool
+  init := false
+  onNext done x := if done then emit done [] else emit true [.next x, .completed]   -- done = True; on_next(x); on_completed()
+  onError done e := if done then emit done [] else emit done [.error e]
+  onCompleted done :=
+    if done then emit done []
+    else match dflt with
+      | none => emit done [.error errNoElements]
+      | some d => emit done [.next d, .completed]
 
 /-! ### `_singleordefault.py: single_or_default_async_(has_default, default_value)` -/
 def singleOrDefaultO {α} (dflt : Option α) : Op α α where
@@ -235,13 +237,14 @@ def toDictAsIsO {α κ ν} (hashable : κ → Bool) (eq : κ → κ → Bool) (k
   onError s e := emit s [.error e]
   onCompleted s := emit [] [.next s, .completed]
 
-/-! ### `_some.py: some_` (without predicate) -/
+/-! ### `_some.py: some_` (without predicate) — state `done` (as repaired by 13a6126: the decision is recorded before it is
+emitted; afterwards every notification of the source is ignored) -/
 def someOp {α} : Op α Bool where
-  σ := Unit
-  init := ()
-  onNext s _ := emit s [.next true, .completed]
-  onError s e := emit s [.error e]
-  onCompleted s := emit s [.next false, .completed]
+  σ := Bool
+  init := false
+  onNext done _ := if done then emit done [] else emit true [.next true, .completed]
+  onError done e := if done then emit done [] else emit done [.error e]
+  onCompleted done := if done then emit done [] else emit true [.next false, .completed]
 
 /-! ## Compositions, exactly as the library pipes them -/
 
